@@ -180,3 +180,66 @@ def borrow(repo, res, tier, module, rules, prefix):
             if f.key not in {x.key for x in res.findings}:
                 res.findings.append(f)
     res.functions |= tmp.functions
+
+
+def stale_reads(func, loop):
+    """Locals that are assigned somewhere inside `loop` but, on some path through one
+    iteration, are read before being assigned in that iteration: the value then
+    comes from the previous iteration (or from before the loop).  Returns
+    [(name, reading stmt node)]; `x += ..` accumulators are not counted."""
+    inside = [n for n in ast.walk(loop)]
+    assigned = {}
+    for n in inside:
+        if isinstance(n, ast.Assign):
+            for t in n.targets:
+                for x in ast.walk(t):
+                    if isinstance(x, ast.Name) and isinstance(x.ctx, ast.Store):
+                        assigned.setdefault(x.id, []).append(n)
+        elif isinstance(n, (ast.For, ast.comprehension)) and n is not loop:
+            for x in ast.walk(n.target):
+                if isinstance(x, ast.Name):
+                    assigned.setdefault(x.id, []).append(n)
+    loopvars = {x.id for x in ast.walk(loop.target) if isinstance(x, ast.Name)} if isinstance(
+        loop, (ast.For, ast.AsyncFor)) else set()
+    out = []
+    seen = set()
+    for seg, how in iteration_segments(func, loop):
+        done = set(loopvars)
+        for e in seg:
+            if e.kind in ('for', 'for0') and e.node is not loop:
+                for x in ast.walk(e.node.iter):
+                    if isinstance(x, ast.Name) and isinstance(x.ctx, ast.Load) and x.id in assigned \
+                            and x.id not in done and (x.id, id(e.node)) not in seen:
+                        seen.add((x.id, id(e.node)))
+                        out.append((x.id, e.node))
+                if e.kind == 'for':
+                    for x in ast.walk(e.node.target):
+                        if isinstance(x, ast.Name):
+                            done.add(x.id)
+                continue
+            if e.kind not in ('stmt', 'test') or e.node is None:
+                continue
+            node = e.node
+            reads = []
+            writes = []
+            if isinstance(node, ast.Assign):
+                reads = [x for x in ast.walk(node.value) if isinstance(x, ast.Name)]
+                for t in node.targets:
+                    for x in ast.walk(t):
+                        if isinstance(x, ast.Name) and isinstance(x.ctx, ast.Store):
+                            writes.append(x.id)
+                        elif isinstance(x, ast.Name):
+                            reads.append(x)
+            elif isinstance(node, ast.AugAssign):
+                reads = [x for x in ast.walk(node.value) if isinstance(x, ast.Name)]
+            else:
+                reads = [x for x in ast.walk(node) if isinstance(x, ast.Name) and isinstance(x.ctx, ast.Load)]
+            comp_bound = {y.id for c in ast.walk(node) if isinstance(c, ast.comprehension)
+                          for y in ast.walk(c.target) if isinstance(y, ast.Name)}
+            for x in reads:
+                if x.id in assigned and x.id not in done and x.id not in comp_bound and \
+                        (x.id, id(node)) not in seen:
+                    seen.add((x.id, id(node)))
+                    out.append((x.id, node))
+            done.update(writes)
+    return out
